@@ -482,6 +482,16 @@ func rangeLoopParts(h *ssa.BasicBlock) (phi *ssa.Phi, n ssa.Value, ok bool) {
 // incoming edge whose phi operands are used (-1: the header's own phi values).
 func (f *frame) loopEnv(li *loopInfo, b *ssa.BasicBlock, predIdx int, st *State) *Env {
 	env := f.baseEnv(st)
+	for _, ins := range li.header.Instrs {
+		if nx, ok := ins.(*ssa.Next); ok && !nx.IsString {
+			if rg, isRange := nx.Iter.(*ssa.Range); isRange {
+				if _, isMap := rg.X.Type().Underlying().(*types.Map); isMap {
+					_, mp, _, _ := f.vc.mapHeaps(rg.X.Type())
+					env.visLoc, env.visHeap = f.visLocOf(rg), mp
+				}
+			}
+		}
+	}
 	env.lookup = func(name string) (Val, bool) {
 		// $i: range index phi
 		for _, ins := range b.Instrs {
